@@ -191,6 +191,10 @@ func RandomSchema(r *hx.Rand) *SchemaDesc {
 	if r.Chance(1, 10) && len(objs) > 1 {
 		s.Subscription = hx.Pick(r, objs[1:])
 	}
+	if r.Chance(1, 15) {
+		// long identifiers (classes.go)
+		longSchemaNames(r.Fork(), s)
+	}
 	return s
 }
 
@@ -201,6 +205,10 @@ type Request struct {
 	Doc       *DocDesc               `json:"doc"`
 	Variables map[string]interface{} `json:"variables,omitempty"`
 	OpName    string                 `json:"op_name,omitempty"`
+	// Classes names the special input classes applied to this request (classes.go); Focus lists world keys
+	// of fields on which RandomWorld should (half of the time) place a resolver error.
+	Classes []string `json:"-"`
+	Focus   []string `json:"-"`
 }
 
 type docGen struct {
@@ -264,7 +272,7 @@ func (g *docGen) dirs() []DirUse {
 func (g *docGen) field(parent *TypeDesc, f *FieldDesc, depth int) *Sel {
 	s := &Sel{Kind: "field", Name: f.Name, Dirs: g.dirs()}
 	for _, a := range f.Args {
-		switch a.Name {
+		switch a.role() {
 		case "k":
 			switch {
 			case g.r.Chance(1, 2):
@@ -283,20 +291,20 @@ func (g *docGen) field(parent *TypeDesc, f *FieldDesc, depth int) *Sel {
 			}
 		case "r":
 			if g.noVars || g.r.Chance(3, 5) {
-				s.Args = append(s.Args, ArgUse{Name: "r", Value: hx.Pick(g.r, []string{"1", "2"})})
+				s.Args = append(s.Args, ArgUse{Name: a.Name, Value: hx.Pick(g.r, []string{"1", "2"})})
 			} else {
 				// a nullable variable with a default is allowed at a non-null argument
-				s.Args = append(s.Args, ArgUse{Name: "r", Value: "$nd"})
+				s.Args = append(s.Args, ArgUse{Name: a.Name, Value: "$nd"})
 				g.used["nd"] = true
 			}
 		case "l":
 			switch {
 			case g.r.Chance(1, 2):
 			case g.noVars || g.r.Chance(3, 4):
-				s.Args = append(s.Args, ArgUse{Name: "l", Value: hx.Pick(g.r, []string{"[1, 2]", "[]", "3", "null"})})
+				s.Args = append(s.Args, ArgUse{Name: a.Name, Value: hx.Pick(g.r, []string{"[1, 2]", "[]", "3", "null"})})
 			default:
 				// an unset nullable variable inside a list literal: validates, fails at run time (F-05d / F-01a)
-				s.Args = append(s.Args, ArgUse{Name: "l", Value: "[1, $u]"})
+				s.Args = append(s.Args, ArgUse{Name: a.Name, Value: "[1, $u]"})
 				g.used["u"] = true
 			}
 		}
@@ -511,6 +519,7 @@ func RandomRequest(r *hx.Rand, s *SchemaDesc) *Request {
 		}
 		g.doc.Ops = append(g.doc.Ops, op)
 	}
+	applyClasses(r.Fork(), s, req)
 	// definition order: operations and fragments interleaved at random
 	for i := range g.doc.Ops {
 		g.doc.Order = append(g.doc.Order, fmt.Sprintf("o%d", i))
